@@ -188,18 +188,19 @@ func ringTol(r orb.Ring, area float64, c [2]float64) (tolA, errA, tolC float64) 
 // ---------------------------------------------------------------- generic measure model
 
 type measure struct {
-	dim     int
-	area    num
-	tolA    float64
-	errA    float64
-	c       [2]float64
-	cOK     bool // the statement defines the centroid for this value (positive total weight)
-	tolC    float64
-	length  float64 // boundary length (sum of listed segment lengths)
-	scale   float64
-	weightR num // area as weight (2-d)
-	cRat    [2]num
-	loose   *orb.Bound // centroid only required to be finite and inside this box
+	dim       int
+	area      num
+	tolA      float64
+	errA      float64
+	c         [2]float64
+	cOK       bool // the statement defines the centroid for this value (positive total weight)
+	tolC      float64
+	length    float64 // boundary length (sum of listed segment lengths)
+	scale     float64
+	weightR   num // area as weight (2-d)
+	cRat      [2]num
+	exactArea bool       // every ring is on a 2^20 lattice (power-of-two unit): float areas are exact
+	loose     *orb.Bound // centroid only required to be finite and inside this box
 }
 
 func allPoints(g orb.Geometry) []orb.Point {
@@ -263,6 +264,12 @@ func boundRing(b orb.Bound) orb.Ring {
 	return orb.Ring{b.Min, {b.Max[0], b.Min[1]}, b.Max, {b.Min[0], b.Max[1]}, b.Min}
 }
 
+// dimOf is the harness's own notion of a geometry's dimension (orb's Dimensions() is never
+// consulted on the oracle side): 0 for points, 1 for lines, 2 for rings, polygons and bounds; a
+// collection has the maximum over its members, recursively, i.e. the maximum over its leaves at any
+// nesting depth. A collection without leaves (empty, or made of empty collections only) has no
+// dimension: -1, as on the unchanged tree, where it therefore never counts as a top-dimensional
+// member of an enclosing collection (and contributes no area either way).
 func dimOf(g orb.Geometry) int {
 	switch v := g.(type) {
 	case orb.Point, orb.MultiPoint:
@@ -270,7 +277,7 @@ func dimOf(g orb.Geometry) int {
 	case orb.LineString, orb.MultiLineString:
 		return 1
 	case orb.Collection:
-		d := 0
+		d := -1
 		for _, m := range v {
 			if x := dimOf(m); x > d {
 				d = x
@@ -279,6 +286,16 @@ func dimOf(g orb.Geometry) int {
 		return d
 	}
 	return 2
+}
+
+// boundOf is the harness's own bounding box of a point list (min/max per axis).
+func boundOf(ps []orb.Point) orb.Bound {
+	b := orb.Bound{Min: ps[0], Max: ps[0]}
+	for _, p := range ps {
+		b.Min[0], b.Min[1] = math.Min(b.Min[0], p[0]), math.Min(b.Min[1], p[1])
+		b.Max[0], b.Max[1] = math.Max(b.Max[0], p[0]), math.Max(b.Max[1], p[1])
+	}
+	return b
 }
 
 func polygonMeasure(p orb.Polygon, scale float64) (measure, error) {
@@ -332,6 +349,12 @@ func polygonMeasure(p orb.Polygon, scale float64) (measure, error) {
 
 // measureOf is the model of CentroidArea / Area / Length.
 func measureOf(g orb.Geometry) (measure, error) {
+	m, err := measureOf0(g)
+	m.exactArea = isLattice(allPoints(g), 1<<20)
+	return m, err
+}
+
+func measureOf0(g orb.Geometry) (measure, error) {
 	scale := maxAbs(allPoints(g))
 	switch v := g.(type) {
 	case orb.Point:
@@ -365,7 +388,7 @@ func measureOf(g orb.Geometry) (measure, error) {
 		if pts := allPoints(v); L.Sign() == 0 && len(pts) > 0 {
 			// every member has zero length: the statement's length-weighted mean says nothing; only
 			// "finite and inside the bound of the member points" is asserted
-			b := orb.MultiPoint(pts).Bound()
+			b := boundOf(pts)
 			out.loose = &b
 		}
 		if L.Sign() > 0 {
@@ -408,7 +431,6 @@ func measureOf(g orb.Geometry) (measure, error) {
 	case orb.Collection:
 		out := measure{dim: dimOf(v), area: zero(), scale: scale}
 		var ms []measure
-		nonneg := true
 		for _, mem := range v {
 			m, err := measureOf(mem)
 			if err != nil {
@@ -422,14 +444,10 @@ func measureOf(g orb.Geometry) (measure, error) {
 			out.area.Add(out.area, m.area)
 			out.tolA += m.tolA
 			out.errA += m.errA
-			if m.area.Sign() < 0 {
-				nonneg = false
-			}
 		}
-		// the centroid of a collection is asserted only when its top dimension is 2 and every
-		// top-dimensional member has a non-negative area (a clockwise ring has a negative one; a
-		// "mean" with negative weights is not what the statement speaks of)
-		if out.dim == 2 && nonneg {
+		// the centroid of a collection is asserted when its top dimension is 2 and the (signed) areas
+		// of its top-dimensional members do not sum to zero: sum(a_i * c_i) / sum(a_i), in any order
+		if out.dim == 2 {
 			weighted(&out, ms)
 		}
 		return out, nil
@@ -439,7 +457,7 @@ func measureOf(g orb.Geometry) (measure, error) {
 
 // weighted sets the area-weighted centroid of out from members with exact centroids.
 func weighted(out *measure, ms []measure) {
-	if out.area.Sign() <= 0 {
+	if out.area.Sign() == 0 {
 		return
 	}
 	for _, m := range ms {
@@ -447,21 +465,37 @@ func weighted(out *measure, ms []measure) {
 			return // a member whose own centroid is not defined by the statement
 		}
 	}
+	// weights are the members' areas as orb defines them: non-negative for polygons, SIGNED for a
+	// bare ring inside a collection. kappa = sum|a| / |sum a| is the condition number of the mean.
 	nx, ny := zero(), zero()
-	at := f64(out.area)
-	tol := 1e-9 * out.scale
+	at := math.Abs(f64(out.area))
+	sumAbs := 0.0
+	for _, m := range ms {
+		sumAbs += math.Abs(f64(m.area))
+	}
+	kappa := sumAbs / at
+	tol := 1e-9 * out.scale * kappa
+	lattice := true
 	for _, m := range ms {
 		if m.area.Sign() == 0 {
 			continue
 		}
 		nx.Add(nx, rmul(m.area, m.cRat[0]))
 		ny.Add(ny, rmul(m.area, m.cRat[1]))
-		tol += f64(m.area)/at*m.tolC + 2*m.errA*(out.scale+math.Abs(m.c[0])+math.Abs(m.c[1]))/at
+		tol += math.Abs(f64(m.area))/at*m.tolC + 2*m.errA*(out.scale+math.Abs(m.c[0])+math.Abs(m.c[1]))/at
+		if m.errA != 0 && !m.exactArea {
+			lattice = false
+		}
 	}
 	out.cRat = [2]num{rquo(nx, out.area), rquo(ny, out.area)}
 	out.c = [2]float64{f64(out.cRat[0]), f64(out.cRat[1])}
 	out.cOK = true
 	out.tolC = tol
+	if kappa > 1e6 && !lattice {
+		// float members whose signed areas cancel to less than 1e-6 of their sum: the float total orb
+		// divides by is dominated by the members' own rounding; not asserted (as for a single ring)
+		out.tolC = math.Inf(1)
+	}
 }
 
 // ---------------------------------------------------------------- distances
